@@ -241,6 +241,19 @@ def run_roundtrip(prop, ver, tier):
             if pos == "unquoted" and not ("bare" in py_adm(s)[0] or s in ("?", ".")):
                 continue
             cases.append(("str:%s@%s" % (run_lengths(s), pos), api_case(s, pos, i)))
+    # (c) names and codes with characters outside CIF 1.1's repertoire, at every place a name can stand (for CIF 1.1
+    # output each must be refused with CIF_DISALLOWED_CHAR whatever else the container holds; CIF 2.0 round-trips them)
+    one = {"k": "numb", "t": "1"}
+    for ch, tag in (("\u00e9", "e9"), ("\u03c3", "sigma"), ("\U0001d11e", "u4")):
+        base = [{"op": "cif_create", "cif": "c"}, {"op": "create_block", "cif": "c", "code": "b", "h": "h"}]
+        cases.append(("name:%s@blockcode" % tag, [{"op": "cif_create", "cif": "c"}, {"op": "create_block", "cif": "c", "code": "b" + ch, "h": "h"}, {"op": "set_value", "cont": "h", "name": "_s", "v": one}]))
+        cases.append(("name:%s@framecode" % tag, base + [{"op": "set_value", "cont": "h", "name": "_s", "v": one}, {"op": "create_frame", "cont": "h", "code": "f" + ch, "h": "hf"}, {"op": "set_value", "cont": "hf", "name": "_t", "v": one}]))
+        cases.append(("name:%s@scalar-first" % tag, base + [{"op": "set_value", "cont": "h", "name": "_a" + ch, "v": one}, {"op": "set_value", "cont": "h", "name": "_z", "v": one}]))
+        cases.append(("name:%s@scalar-last" % tag, base + [{"op": "set_value", "cont": "h", "name": "_a", "v": one}, {"op": "set_value", "cont": "h", "name": "_z" + ch, "v": one}]))
+        for k in range(3):
+            nm = ["_l%d" % j + (ch if j == k else "") for j in range(3)]
+            cases.append(("name:%s@loop-%d-of-3" % (tag, k + 1), base + [{"op": "set_value", "cont": "h", "name": "_s", "v": one}, {"op": "create_loop", "cont": "h", "category": "k", "names": nm, "h": "l"},
+                          {"op": "loop_add_packet", "loop": "l", "packet": [[n, one] for n in nm]}, {"op": "loop_add_packet", "loop": "l", "packet": [[n, {"k": "char", "t": "v", "q": 1}] for n in nm]}]))
     results = run_cases(binary, cases, ver)
     recs, owners = [], []
     for label, build_cmds, o, err in results:
